@@ -81,7 +81,10 @@ func VerifH09a() {
 	anyUnenc := false
 	typedNull := false
 	for i := 0; i < nc; i++ {
-		columns[i] = Column{Name: "c", Oid: oid.T_text}
+		// every descriptive field of the column is arbitrary (a width of -1 is
+		// PostgreSQL's own typlen for text): none of them affects the value sent
+		columns[i] = Column{Name: "c", Oid: oid.T_text, Table: int32(nondetU32()), ID: int32(nondetU32()),
+			Attr: int16(nondetU16()), AttrNo: int16(nondetU16()), Width: int16(nondetU16()), TypeModifier: int32(nondetU32())}
 		var un bool
 		srcs[i], null[i], payload[i], un = vValue(vParam("VLEN", 2))
 		if un {
@@ -153,8 +156,21 @@ func VerifH09w() {
 	conn := vNewConn(nil)
 	w := buffer.NewWriter(slog.Default(), conn)
 	err := columns.Write(ctx, nil, w, srcs)
+	if ns > nc {
+		vReach("too-many-values")
+	}
+	// (C02's weaker reading first: whatever a wrong-arity row puts on the wire is well-formed)
+	vAssert("wrong-arity-output-wellformed", vWireOK(conn.out))
 	vAssert("wrong-arity-is-error", err != nil)
 	vAssert("wrong-arity-emits-nothing", len(conn.out) == 0)
+	// (C02's weaker reading: whatever a wrong-arity row leaves behind, what
+	// reaches the client — with the next, correct row — is well-formed)
+	good := make([]any, nc)
+	for i := range good {
+		good[i] = "y"
+	}
+	vAssert("next-row-ok", columns.Write(ctx, nil, w, good) == nil)
+	vAssert("wrong-arity-then-good-row-wellformed", vWireOK(conn.out))
 	vReach("wrong-arity")
 }
 
